@@ -143,3 +143,8 @@ _extend('C02', 'ADDED (unit I-resolve): Operations::rebuild_indexes - called aft
 _extend('C07', 'ADDED: group_rows is a partition of the input by key - one group per distinct key, NULL keys one group, rows in input order (unit G-group); the float batching driver '
         'and the columnar pipeline are under contract in unit A-col.')
 _extend('C01', 'ADDED (unit S-setops): apply_set_operation against SQL bag semantics for UNION / INTERSECT / EXCEPT [ALL], per key over the multiplicities of both inputs.')
+
+NOT_APPLICABLE['C13'] = ("begin/rollback are two clone()s of catalog and tables; the state the property worries about lives outside their frame (the CREATE INDEX registry, "
+                         "caches) - an absent assignment cannot be refuted by a contract on these functions. Partially reached under other properties: the CONTENTS of the "
+                         "user-defined indexes are rebuilt after ROLLBACK (fix 3518c656, unit K-undo rollback_transaction, counted under C02/C14); CREATE INDEX / DROP INDEX "
+                         "inside a rolled-back transaction still survive it (observed, DESIGN 9b)")
